@@ -121,6 +121,10 @@ def check_rates(tier, seed):
         # the same reaction listed again with other coefficients (two sources, or a re-fit): every entry keeps its own law
         for r0 in list(ars[:6]):
             ars.append(N.AR(list(reversed(r0.reactants)), list(r0.products), r0.a * 3.0, r0.b + 0.5, r0.c + 2.0, r0.tmin, r0.tmax, r0.idx + 10000, r0.code, r0.markers))
+        # coefficients whose shortest decimal form is in exponent notation (no decimal point), negative ones included: the sign clean-up
+        # and the pasted literals must not depend on how the number happens to print
+        for r0, (a1, b1, c1) in zip(list(ars[:12]), [(1.0e-10, 0.0, -1e-05), (2e-07, -1e-05, -2e-07), (-1e-05, 0.5, 4e-05), (1e-10, 2e-05, 7e-06)] * 3):
+            ars.append(N.AR(list(r0.reactants), list(r0.products), a1, b1, c1, r0.tmin, r0.tmax, r0.idx + 20000, r0.code, r0.markers))
         lines = [(r, N.ENC[fmt](r)) for r in ars]
         try:
             net = N.load([l for _, l in lines], fmt)
@@ -137,6 +141,20 @@ def check_rates(tier, seed):
             from .native_ode import render, statements, strip_comments
             files = render(net, "cvode", "dense", "cpu", jac_pattern=False)
             emitted = {int(i): " ".join(rhs.split()) for i, rhs in statements(strip_comments(files["src/naunet_rates.cpp"]), r"\bk\[(\d+)\]")}
+            # the other back ends evaluate the same statements: nothing is lost or altered on the way through their templates
+            for backend, fname in [(("cvode", "cusparse", "gpu"), "src/naunet_rates.cu"), (("odeint", "rosenbrock4", "cpu"), "src/naunet_ode.cpp")]:
+                txt = strip_comments(render(net, *backend, jac_pattern=False)[fname])
+                other = {int(i): " ".join(rhs.split()) for i, rhs in statements(txt, r"\bk\[(\d+)\]")}
+                bn = "/".join(backend[:2])
+                for i_ in sorted(set(emitted) | set(other)):
+                    if other.get(i_) != emitted.get(i_):
+                        V(fmt, "*", f"backend-statement: {bn}: k[{i_}] = {str(other.get(i_))[:80]!r}, the cvode/dense source has {str(emitted.get(i_))[:80]!r}", "")
+                        break
+                if txt.count("{") != txt.count("}") or txt.count("(") != txt.count(")"):
+                    V(fmt, "*", f"backend-source-unbalanced: {bn}: {fname} has {txt.count('{')} '{{' and {txt.count('}')} '}}' outside comments", "")
+            miss = sorted(set(range(len(got))) - set(emitted))
+            if miss:
+                V(fmt, "*", f"emitted-statement-missing: no assignment to k{miss[:5]} in naunet_rates.cpp", "")
         except Exception as e:
             V(fmt, "*", f"render-raises: {type(e).__name__}: {e}", "")
         for pos_, ((r, line), g) in enumerate(zip(lines, got)):
